@@ -145,6 +145,35 @@ pub fn check(rep: &mut Rep, d: i128, s1: TimeScale, x: i128) {
     }
 }
 
+/// float-seconds / float-days constructors of each scale (whole values: exact by C18)
+fn check_float_ctors(rep: &mut Rep, secs: i64, s: TimeScale) {
+    if !rep.tick() {
+        return;
+    }
+    rep.class("ctor/float-seconds-days");
+    let x = secs as f64;
+    let days = (secs % 40_000) as f64;
+    match guard(|| match s {
+        TimeScale::TAI => (Epoch::from_tai_seconds(x), Epoch::from_tai_days(days)),
+        TimeScale::TT => (Epoch::from_tt_seconds(x), Epoch::from_tt_duration(days * hifitime::Unit::Day)),
+        TimeScale::GPST => (Epoch::from_gpst_seconds(x), Epoch::from_gpst_days(days)),
+        TimeScale::QZSST => (Epoch::from_qzsst_seconds(x), Epoch::from_qzsst_days(days)),
+        TimeScale::GST => (Epoch::from_gst_seconds(x), Epoch::from_gst_days(days)),
+        TimeScale::BDT => (Epoch::from_bdt_seconds(x), Epoch::from_bdt_days(days)),
+        _ => (Epoch::from_utc_seconds(x), Epoch::from_utc_days(days)),
+    }) {
+        Err(p) => rep.fail(&format!("float-ctor/panic/{}", p.class()), None, || format!("from_{:?}_seconds({x}) panicked {}", s, p.msg)),
+        Ok((a, b)) => {
+            if a.time_scale != s || count_d(a.duration) != secs as i128 * NS_S {
+                rep.fail("float-ctor/seconds", None, || format!("from_{:?}_seconds({x}) = ({}, {:?})", s, count_d(a.duration), a.time_scale));
+            }
+            if b.time_scale != s || count_d(b.duration) != (secs % 40_000) as i128 * NS_D {
+                rep.fail("float-ctor/days", None, || format!("from_{:?}_days({days}) = ({}, {:?})", s, count_d(b.duration), b.time_scale));
+            }
+        }
+    }
+}
+
 fn check_ref(rep: &mut Rep) {
     for s in SCALES {
         if !rep.tick() {
@@ -210,5 +239,7 @@ pub fn run(cfg: &Cfg, rep: &mut Rep) {
         };
         let x = gen::rand_count_within(&mut r, 200 * NPC);
         check(rep, d, s, x);
+        let sc = *r.pick(&[TimeScale::TAI, TimeScale::TT, TimeScale::UTC, TimeScale::GPST, TimeScale::QZSST, TimeScale::GST, TimeScale::BDT]);
+        check_float_ctors(rep, r.range_i64(-9_007_199, 9_007_199), sc);
     }
 }
